@@ -73,3 +73,13 @@ U("c01_store_asset_key", ["C01", "C09"], "h_store_asset", ["C01/store_asset.c"],
   defines=["-DI18N_DISABLED=1"], cbmc_flags=["--unwind", "70", "--unwinding-assertions", "--object-bits", "12"], bounds={"url": "one concrete URL, stored twice", "unwind": 70},
   functions=["store_asset", "extract_asset", "asset_new", "my_strdup (writer.c)"], callees={"uthash macros": "real code", "uuid_new": "stub (fresh string)", "strlen/strcpy": "byte-loop models"},
   min_obligations=10, timeout=300, cost=10, assumptions=[NOFAIL])
+
+# ---- dimension helpers of the writers (static functions): memory safety for short values, tolower domain, high bytes unchanged
+for _s, _file, _fn, _extra in (("latex", "latex.c", "__CPROVER_file_local_latex_c_correct_dimension_units", []),
+                               ("odf", "opendocument-content.c", "__CPROVER_file_local_opendocument_content_c_correct_dimension_units", []),
+                               ("html", "html.c", "__CPROVER_file_local_html_c_strip_dimension_units", ["-DDIM_STRIPS"])):
+    U("c01_dimension_units_" + _s, ["C01", "C16"], "h_dim", ["C01/dimension.c"], [_file], plain=True, lib=("lib/libc_models.c",), kind="bounded",
+      defines=["-DI18N_DISABLED=1", "-DDIM_FN=" + _fn, "-DDN=3"] + _extra, cbmc_flags=["--unwind", "8", "--unwinding-assertions", "--object-bits", "10"],
+      bounds={"value length<=": 3, "bytes": "full domain", "unwind": 8}, functions=[_fn.split("_c_")[-1] + " (static, " + _file + ")", "my_strdup (static)"],
+      callees={"tolower": "contract stub: C locale mapping, requires an argument in its domain", "strlen/strcpy/strstr/strcat": "byte-loop models / CBMC built-in"},
+      min_obligations=10, timeout=300, cost=5, assumptions=[NOFAIL])
